@@ -17,8 +17,10 @@ PID = 'C07'
 TIMEOUT = 120.0
 RULE = ('spec: each signal runs every k-th point of the 3888-point mask configuration grid (x 4 option sets rotating with the grid index) with a rotating offset '
         '(union over signals covers the grid); single: get_next_imf_mask over a frequency x amplitude x nphases grid; '
-        'sched: every canonical chunk->worker assignment per (nphases, nprocesses); non-trivial = result has >= 2 IMFs '
-        '(spec) / schedule uses >= 2 workers (sched)')
+        'sched: every canonical chunk->worker assignment per (nphases, nprocesses) incl. chunks of several jobs; '
+        'reuse: every sequence of d in-place edits (8-edit alphabet) of one caller-owned set of option dictionaries with a masked '
+        'sift after each edit, serial and on 2 workers; non-trivial = result has >= 2 IMFs '
+        '(spec) / schedule uses >= 2 workers (sched) / two different edits (reuse)')
 ASSUMPTIONS = ['the specification uses emd.sift.get_next_imf (captured before interposition) as its stage function, and '
                'emd.spectra.frequency_transform for the instantaneous-frequency source',
                'configurations for which the specification itself cannot be evaluated (too-short signal for the frequency '
@@ -55,8 +57,9 @@ def capture():
 
 def bounds(tier):
     if tier == 'quick':
-        return {'fa_len': 5, 'fa_stride': 216, 'fb_sizes': (32,), 'fb_stride': 16, 'nph': 5, 'P': 3, 'sched_signals': 2}
-    return {'fa_len': 6, 'fa_stride': 108, 'fb_sizes': (32, 64), 'fb_stride': 8, 'nph': 8, 'P': 8, 'sched_signals': 3}
+        return {'fa_len': 5, 'fa_stride': 216, 'fb_sizes': (32,), 'fb_stride': 16, 'nph': 5, 'P': 3, 'sched_signals': 2, 'multi_job_chunks': '(nphases, P) in (9,2), (10,2)'}
+    return {'fa_len': 6, 'fa_stride': 108, 'fb_sizes': (32, 64), 'fb_stride': 8, 'nph': 8, 'P': 8, 'sched_signals': 3,
+            'multi_job_chunks': '(nphases, P) in (9..12,2), (16,2), (17,2), (13,3), (14,3), (17,4)'}
 
 
 SCHED_SIGNALS = [('tone', 32, 2, 'lin', 'none'), ('noise', 64, 0, 'none', 'none'), ('tone', 64, 3, 'none', 'am')]
@@ -94,6 +97,8 @@ def cases(tier, seed):
     for name in signals.fb_names((32,))[:12]:
         k += 1
         yield ('spec', 'fb-f32', name, (k * 53) % len(GRID), seed)
+    for c in reuse_cases(tier, seed):
+        yield c
     for si in range(b['sched_signals']):
         for nph in range(1, b['nph'] + 1):
             seen = set()
@@ -106,12 +111,78 @@ def cases(tier, seed):
                     first = False
                     seen.add((cs, rgs))
                     yield ('sched1', 'fb', SCHED_SIGNALS[si], (nph, P, rgs), seed)
+        # chunks holding several jobs on more than one worker (needs nphases > 4 * nprocesses)
+        multi = ((9, 2), (10, 2)) if tier == 'quick' else ((9, 2), (10, 2), (11, 2), (12, 2), (16, 2), (17, 2), (13, 3), (14, 3), (17, 4))
+        for nph, P in multi if si == 0 or tier != 'quick' else ():
+            if P >= 4 and si > 0:
+                continue
+            C, cs = nchunks(nph, P)
+            for rgs in enum.restricted_growth_strings(C, P):
+                yield ('sched1', 'fb', SCHED_SIGNALS[si], (nph, P, rgs), seed)
         # two pools in one mask_sift call: product of the per-pool schedule spaces
         for nph, P in ((2, 2), (3, 2), (4, 2), (3, 3)) if tier == 'quick' else ((2, 2), (3, 2), (4, 2), (3, 3), (4, 3), (5, 2), (4, 4)):
             C, cs = nchunks(nph, P)
             for r1 in enum.restricted_growth_strings(C, P):
                 for r2 in enum.restricted_growth_strings(C, P):
                     yield ('sched2', 'fb', SCHED_SIGNALS[si], (nph, P, r1, r2), seed)
+
+
+# in-place edits of the option dictionaries handed to successive calls (the caller keeps and edits its own objects)
+EDITS = (('imf_opts', 'stop_method', 'fixed'), ('imf_opts', 'max_iters', 2), ('envelope_opts', 'interp_method', 'mono_pchip'),
+         ('extrema_opts', 'pad_width', 1), ('extrema_opts', 'parabolic_extrema', True), ('imf_opts', None, None),
+         ('envelope_opts', None, None), ('extrema_opts', None, None))
+
+
+def reuse_cases(tier, seed):
+    depth = 2 if tier == 'quick' else 3
+    sigs = SCHED_SIGNALS[:1] if tier == 'quick' else SCHED_SIGNALS[:2]
+    for name in sigs:
+        for P in (1, 2):
+            for seq in itertools.product(range(len(EDITS)), repeat=depth):
+                yield ('reuse', 'fb', name, (seq, P), seed)
+
+
+def check_reuse(case):
+    """One caller-owned set of option dictionaries, edited in place between successive masked sifts in one process:
+    every call must follow the masking rule under the options the dictionaries hold at that moment."""
+    import copy
+    x = signal_of(case)
+    seq, P = case[3]
+    live = {'imf_opts': {}, 'envelope_opts': {}, 'extrema_opts': {}}
+    viols = []
+    trans = 0
+    sched = [[i % P for i in range(64)] for _ in range(16)]
+    with forkpool.installed(forkpool.ControlledMP(sched) if P > 1 else forkpool.SerialMP()):
+        for step_i, ei in enumerate((None,) + tuple(seq)):
+            if ei is not None:
+                grp, key, val = EDITS[ei]
+                if key is None:
+                    live[grp].clear()
+                else:
+                    live[grp][key] = val
+            now = copy.deepcopy(live)
+            tag = 'reuse F_B%r nprocesses=%d edits=%s call#%d options now %r' % (case[2], P, [EDITS[i] for i in seq[:step_i]], step_i, now)
+            try:
+                got = np.asarray(_orig['mask_sift'](x.copy(), mask_freqs=0.12, mask_amp=0.8, mask_amp_mode='ratio_sig', nphases=4,
+                                                    max_imfs=2, nprocesses=P, imf_opts=live['imf_opts'],
+                                                    envelope_opts=live['envelope_opts'], extrema_opts=live['extrema_opts']))
+            except forkpool.HarnessError:
+                raise
+            except Exception as e:
+                viols.append(('reuse:raise:%s' % type(e).__name__, '%s raised %r' % (tag, e)))
+                break
+            trans += 1
+            if live != now:
+                viols.append(('reuse:options-modified', '%s: the option dictionaries were changed by the call: %r' % (tag, live)))
+                break
+            with np.errstate(all='ignore'):
+                bad, n, wfreq = spec_compare(x, got, 0.12, 'ratio_sig', 'scalar', 2, 4, 2, opts=now)
+            if bad and bad[0] == 'GUARD':
+                break
+            if bad:
+                viols.append(('reuse:%s' % bad[0].split(':')[0], '%s: %s' % (tag, bad[1])))
+                break
+    return Outcome(cls='reuse:P=%d' % P, transitions=trans, viols=viols, nontrivial=len(set(seq)) > 1)
 
 
 def decode_case(c):
@@ -255,6 +326,8 @@ def check_case(case):
     if kind == 'single':
         with forkpool.installed(forkpool.SerialMP()):
             return check_single(case)
+    if kind == 'reuse':
+        return check_reuse(case)
     return check_sched(case)
 
 
@@ -465,7 +538,7 @@ def worker_init():
 
 
 def nonvacuity(rep, ctx):
-    need = {'spec:multi', 'single', 'sched1:multi-worker', 'sched2:multi-worker'}
+    need = {'spec:multi', 'single', 'sched1:multi-worker', 'sched2:multi-worker', 'reuse:P=1', 'reuse:P=2'}
     errs = []
     if not need <= set(rep.classes):
         errs.append('vacuous: outcome classes %r' % dict(rep.classes))
